@@ -28,6 +28,62 @@ pub fn scenario_case(s: &Scenario, rec: &mut CaseRec) -> Result<(), String> {
     Ok(())
 }
 
+/// A clone that takes 12-16 seconds because one stage is slow (a slow disk, a slow pipe): how long a stage takes must
+/// not change the output either. One chunk occurs at 36-51 places of the source and comes from the seed, so feeding it
+/// is a long loop of writes; `what` selects the slow operation: 0 = every write to the output, 1 = every read of the
+/// seed file, 2 = every read of the archive.
+#[derive(Clone, Debug, serde::Serialize, serde::Deserialize)]
+pub struct SlowCase {
+    pub what: u8,
+    pub reps: u8,
+    pub stdin: bool,
+    pub seed: u32,
+}
+
+fn run_slow(c: &SlowCase, rec: &mut CaseRec) -> Result<(), String> {
+    use crate::gen::*;
+    use crate::props::l2scen::{execute, L2Scen};
+    let reps = 36 + (c.reps % 16) as u32;
+    let mut source: SourceSpec = vec![];
+    for i in 0..reps {
+        source.push(Seg::Const { b: 0xA5, n: 64 });
+        source.push(Seg::Random { n: 64, seed: c.seed.wrapping_add(i) });
+    }
+    let cfg = ArchCfg { chunker: ChunkerCfg { algo: Algo::FixedSize, bits: 0, min: 0, max: 64, window: 0 }, hash_len: 64, comp: Comp::None, buffers: 2 };
+    let seeds = vec![(Related::Unrelated(vec![Seg::Random { n: 64, seed: c.seed ^ 9 }, Seg::Const { b: 0xA5, n: 64 }, Seg::Random { n: 128, seed: c.seed ^ 7 }]), ReadScript::full())];
+    let scen = Scenario { source, cfg, seeds, prior: None, inplace: false, block_dev: false, clone_buffers: 2 };
+    let what = c.what % 3;
+    let stdin = c.stdin && what != 1;
+    let l2c = L2Scen { scen: scen.clone(), http: false, stdin_seed: if stdin { Some(0) } else { None }, verify_output: false, cli_writer: false };
+    let e = expectations(&scen);
+    let delay = match what {
+        0 => ("write".to_string(), "o.out".to_string(), 13_500_000 / reps, None),
+        1 => ("read".to_string(), "seed0.bin".to_string(), 6_500_000, None),
+        _ => ("read".to_string(), "a.cba".to_string(), 300_000, None),
+    };
+    let hook = crate::l2::Hook { delay: vec![delay], ..Default::default() };
+    let _ = std::fs::create_dir_all(crate::props::c01::worker_dir("C02"));
+    let t0 = std::time::Instant::now();
+    let o = execute("C02", &l2c, &e, Some(hook), None)?;
+    let secs = t0.elapsed().as_secs_f64();
+    let dir = crate::props::c01::worker_dir("C02");
+    crate::props::c01::clean_dir(&dir);
+    if o.run.timed_out {
+        return Err(format!("[timeout] bita clone: {}", o.run.describe()));
+    }
+    if !o.run.ok() {
+        return Err(format!("bita clone failed: {}", o.run.describe()));
+    }
+    let out = o.output.as_ref().ok_or("bita clone exit 0 but no output file")?;
+    check_final_output(&scen, &e, out).map_err(|m| format!("{} (a clone slowed down to {:.0} s: {})", m, secs, ["slow output writes", "slow seed reads", "slow archive reads"][what as usize]))?;
+    rec.level = Some("L2");
+    rec.class(["slow_output_writes", "slow_seed_reads", "slow_archive_reads"][what as usize]);
+    rec.class_if(stdin, "stdin_seed");
+    rec.class_if(secs >= 10.0, "clone_took_10s_or_more");
+    rec.nontrivial = secs >= 5.0;
+    Ok(())
+}
+
 pub fn seeds_scenario_strategy() -> impl Strategy<Value = Scenario> {
     // hash length 4..64: by-design collisions are discarded by the exact collision guard
     scenario_strategy(4, true, true).prop_map(|mut s| {
@@ -44,7 +100,7 @@ impl Prop for C02 {
     }
     fn meta(&self, _tier: Tier) -> Meta {
         Meta {
-            rule: "cases = clone scenarios: archive of a generated source (library or CLI writer) x 1-4 seed streams derived from the source by edit scripts (insert/delete/replace-same-size/duplicate/move/truncate/append/prepend), the source itself, unrelated data or empty, each with its own read script, x optional prior output (plain overwrite, --seed-output, block device) x hash length 4..64. L1: mirror of clone_cmd on the in-memory output; L2: real `bita clone --seed f ... --seed -`. Oracle (metamorphic): a clone that reports success leaves exactly the source (what the seedless clone produces). Cases where two different chunk contents share a truncated hash are detected exactly by R3's collision guard and discarded (counted). Non-trivial = at least one source chunk is found in a seed and at least one is not; distinct by Blake2 of the canonical case.".into(),
+            rule: "cases = clone scenarios: archive of a generated source (library or CLI writer) x 1-4 seed streams derived from the source by edit scripts (insert/delete/replace-same-size/duplicate/move/truncate/append/prepend), the source itself, unrelated data or empty, each with its own read script, x optional prior output (plain overwrite, --seed-output, block device) x hash length 4..64. L1: mirror of clone_cmd on the in-memory output; L2: real `bita clone --seed f ... --seed -`. Variant 'slow': a seeded clone stretched to 12-16 s by delaying every output write / seed read / archive read (iohook), one chunk going to 36-51 places. Oracle (metamorphic): a clone that reports success leaves exactly the source (what the seedless clone produces). Cases where two different chunk contents share a truncated hash are detected exactly by R3's collision guard and discarded (counted). Non-trivial = at least one source chunk is found in a seed and at least one is not; distinct by Blake2 of the canonical case.".into(),
             assumptions: vec!["'chunks found in a seed' is computed with the reference chunker R1 and the harness's own Blake2".into()],
             ..Meta::default()
         }
@@ -55,11 +111,14 @@ impl Prop for C02 {
         crate::props::l2scen::run_l2_variant(cx, "C02", t.pick(2400, 30000), seeds_scenario_strategy().boxed(), |_s, e, rec| {
             rec.nontrivial = !e.in_seeds.is_empty() && e.in_seeds.len() < e.src_keys.len();
         });
+        // one slow clone per worker in the quick tier (they run side by side)
+        cx.run_prop("slow", t.pick(16, 160), (0u8..3, any::<u8>(), any::<bool>(), any::<u32>()).prop_map(|(what, reps, stdin, seed)| SlowCase { what, reps, stdin, seed }), run_slow);
     }
     fn replay(&self, _cx: &mut WorkerCtx, variant: &str, case: &Value) -> Result<(), String> {
         let mut rec = CaseRec::default();
         match variant {
             "l2" => crate::props::l2scen::replay_l2("C02", case, &mut rec),
+            "slow" => run_slow(&serde_json::from_value(case.clone()).map_err(|e| e.to_string())?, &mut rec),
             _ => scenario_case(&serde_json::from_value(case.clone()).map_err(|e| e.to_string())?, &mut rec),
         }
     }
